@@ -2,6 +2,7 @@ package c13
 
 import (
 	"fmt"
+	"net/url"
 	"os"
 	"strconv"
 	"strings"
@@ -20,6 +21,7 @@ var (
 	cCompose = vt.New("C13", "compose")
 	cGuard   = vt.New("C13", "guard-selfcheck")
 	cProbe   = vt.New("C13", "telemetry-processors-probe")
+	cShapes  = vt.New("C13", "path-shape-selfcheck")
 )
 
 // mine: sweep item i belongs to this shard.
@@ -138,6 +140,31 @@ func TestLeafSweep(t *testing.T) {
 				sweepCase(t, cLeaf, s)
 			}
 			cLeaf.Class("leaf-type:" + n.Type.String())
+			// the zero value of the type, written over a non-zero factory default (when the tree accepts it)
+			if n.Zero != nil {
+				if zeroAccepted(k, n) {
+					ws := example(func(t *rapid.T) []Write { return genFocusedVal(t, k, n.key(), *n.Zero) }, i*131+97)
+					s, _ := minimal(k, ws)
+					s.Sweep = "zero over default " + k.name() + " " + n.key()
+					sweepCase(t, cLeaf, s)
+					cLeaf.Class("zero-sweep:written")
+				} else {
+					cLeaf.Class("zero-sweep:zero-rejected-by-validation")
+				}
+			}
+			// every path shape at every URL-path leaf
+			if strings.HasSuffix(last(n.Path), "_url_path") {
+				for si, shape := range urlPathShapes {
+					for r := 0; r < per; r++ {
+						ws := example(func(t *rapid.T) []Write {
+							return genFocusedVal(t, k, n.key(), Val{K: "upath", S: genURLPathShape(t, shape)})
+						}, i*131+si*7+r)
+						s, _ := minimal(k, ws)
+						s.Sweep = "url path " + shape + " " + k.name() + " " + n.key()
+						sweepCase(t, cLeaf, s)
+					}
+				}
+			}
 		}
 		// every list-of-structs setting, written with 0,1,2,3 partially written elements
 		for _, n := range k.Lists {
@@ -353,6 +380,37 @@ func TestGuardSelfCheck(t *testing.T) {
 		if f != nil {
 			c.Inconclusive("guard self-check %q reported %v", tc.name, f)
 			t.Fatalf("guard self-check %q reported %v", tc.name, f)
+		}
+	}
+	c.SetExhaustive(true)
+}
+
+// TestPathShapeSelfCheck: the URL-path generator must stay inside the strings
+// the loader is documented to leave alone apart from the leading slash, i.e.
+// url.Parse(s).Path == s (percent-escape shapes: the decoded form).  A failure
+// is a harness defect (inconclusive), not a violation.
+func TestPathShapeSelfCheck(t *testing.T) {
+	if vt.ReplayPath() != "" || !firstShard() {
+		t.Skip()
+	}
+	c := cShapes
+	defer c.Flush()
+	for si, shape := range urlPathShapes {
+		for r := 0; r < 40; r++ {
+			p := example(func(t *rapid.T) string { return genURLPathShape(t, shape) }, si*1000+r)
+			u, err := url.Parse(p)
+			want := p
+			if strings.Contains(p, "%") {
+				want, _ = url.PathUnescape(p)
+			}
+			if err != nil || u.Path != want || u.Scheme != "" || u.Host != "" || u.RawQuery != "" || u.Fragment != "" {
+				c.Inconclusive("path shape self-check: %q (shape %s) is outside the generator's domain: %v %+v", p, shape, err, u)
+				t.Fatalf("path shape self-check: %q (shape %s): %v %+v", p, shape, err, u)
+			}
+			c.Eval(true, p)
+			for _, f := range pathFeatures(p) {
+				c.Class("url-path:" + f)
+			}
 		}
 	}
 	c.SetExhaustive(true)
